@@ -19,7 +19,9 @@ def run(tier):
     conds.append(Cond("h_constraints.py", None, 600, twin="reach", env={"H_PROG": "21", "H_R2": "2"}))
     # look-alike trees: two derivations of the same string on an ambiguous grammar, evaluated one after the other by one Evaluator
     conds.append(Cond("h_ambcache.py", "second_equals_fresh", 900 if tier == "quick" else 2400, twin="reach"))
-    run.run_conditions(conds, conformance_harnesses=["h_constraints.py", "h_ambcache.py"])
+    # the same tree evaluated again by further Evaluators that share the constraint objects (what successive fuzz() calls do)
+    conds.append(Cond("h_tworeps.py", "repeat_equals_fresh", 600))
+    run.run_conditions(conds, conformance_harnesses=["h_constraints.py", "h_ambcache.py", "h_tworeps.py"])
     run.encoded = ENCODED + ["Constraint.cache (per-constraint memo)", "Evaluator._fitness_cache/_solution_set", "DerivationTree.invalidate_hash/set_children"]
     run.extra["source_sha256_16"] = source_fingerprint(FILES + ["fandango/language/tree.py"])
     run.bounds = {"history": "evaluate tree A; then tree B = A with one leaf replaced (symbolic position and character), either as a new "
